@@ -14,7 +14,7 @@ LEVEL_TEXT = (
     "(the structural half of the prolongation clause)."
 )
 LEVEL_NOTE = "Not decided: the P1/RWG dof-map loops on arbitrary meshes (program verification), prolongation equality up to quadrature error (numerical)."
-EXPLANATION = "rules ASM-REGULAR (scatter, 6 assemblers), SING-SCATTER, SING-SUPPORT, SING-LAYOUT, SPARSE-ROLES/SCATTER, SPACE-MAPS, LAUNCH-ROLES, REFINE-CHILDREN, IDX-ELEM-BY-POSITION, DOF-BY-ENTITY"
+EXPLANATION = "rules ASM-REGULAR (scatter, 6 assemblers), SING-SCATTER, SING-SUPPORT, SING-LAYOUT, SPARSE-ROLES/SCATTER, SPACE-MAPS, LAUNCH-ROLES, REFINE-CHILDREN, REFINE-DATA, IDX-ELEM-BY-POSITION, DOF-BY-ENTITY"
 ASSUMPTIONS = ["local2global / local_multipliers tables describe T (C09)", "np.add.at and COO assembly accumulate duplicates"]
 
 
@@ -28,12 +28,7 @@ def run(ctx):
     sparse.kernels(ctx)  # the element integrals the sparse scatter distributes: taken on the element, not its position
     spaces.coefficient_maps(ctx)
     spaces.localised_inherit(ctx)
-    pts = bary.ref_points(ctx)
-    r = ctx.rule("REFINE-CHILDREN", "children of refine() / barycentric refinement are positively oriented and their areas sum to the parent's", 12)
-    kids, mids_ok, dom_ok, ln = bary.refine_table(ctx)
-    c11.children_rule(ctx, r, "refine", kids, pts, bary.GRID, "Grid.refine", ln, 4)
-    B, bln = bary.barycentric_table(ctx)
-    c11.children_rule(ctx, r, "barycentric", B, pts, bary.GRID, "_create_barycentric_connectivity_array", bln, 6)
+    c11.refinement(ctx)  # children 4e+k tile their parent, midpoints by edge number, the parents' domain indices repeated
     # subspaces live on subsets of the elements: tables numbered by element must never be read by position, and the
     # dof maps of the continuous spaces must number by mesh entity (the same dof on a segment and on the whole grid)
     from .. import gridfun
